@@ -13,8 +13,6 @@ import (
 type (
 	// WaitGroup is sync.WaitGroup (Wait is durably blocking under synctest).
 	WaitGroup = sync.WaitGroup
-	// Once is sync.Once.
-	Once = sync.Once
 	// Map is sync.Map.
 	Map = sync.Map
 	// Cond is sync.Cond.
@@ -22,6 +20,30 @@ type (
 	// Locker is sync.Locker.
 	Locker = sync.Locker
 )
+
+// Once is sync.Once with a channel based lock: a second caller of Do waits (durably) while the first one is still
+// running f, exactly as sync.Once does. The engine runs message ack/nack handler chains that block on plugin calls
+// inside Once.Do (stream.Message.Ack/Nack).
+type Once struct {
+	done atomic.Uint32
+	m    Mutex
+}
+
+// Do calls f if and only if Do is being called for the first time for this instance of Once.
+func (o *Once) Do(f func()) {
+	if o.done.Load() == 0 {
+		o.doSlow(f)
+	}
+}
+
+func (o *Once) doSlow(f func()) {
+	o.m.Lock()
+	defer o.m.Unlock()
+	if o.done.Load() == 0 {
+		defer o.done.Store(1)
+		f()
+	}
+}
 
 // NewCond is sync.NewCond.
 func NewCond(l Locker) *Cond { return sync.NewCond(l) }
